@@ -287,6 +287,7 @@ pub struct Outcome {
 }
 
 struct Run<'r> {
+    want: Prop,
     rng: &'r mut Rng,
     model: Msg,
     nocase: bool,
@@ -315,7 +316,15 @@ fn legal_wire_name(rng: &mut Rng, target_len: Option<usize>) -> Name {
 }
 
 fn invalid_wire_name(rng: &mut Rng) -> (Vec<u8>, &'static str) {
-    match rng.below(7) {
+    match rng.below(9) {
+        7 | 8 => {
+            // well-formed wire name, but a character the parser refuses in owner names; several lengths so
+            // that the record would have to grow or shrink
+            let c = *rng.pick(&[b'.', b'\\', 0x00, 0x09, 0x1f, 0x7f]);
+            let mut l = vec![b'w', c];
+            l.extend(std::iter::repeat(b'z').take(rng.below(20)));
+            (Name(vec![l, b"example".to_vec()]).to_wire(), "bad-char")
+        }
         0 => (vec![1, b'a', 0xc0, 0x0c], "pointer-inside"),
         1 => {
             let mut v = vec![64u8];
@@ -340,6 +349,10 @@ impl<'r> Run<'r> {
     fn logp(&mut self, s: String) {
         LIVE_LOG.with(|l| l.borrow_mut().push(s.clone()));
         self.log.push(s);
+    }
+    /// has this run found what it is looking for?
+    fn halt(&self) -> bool {
+        self.findings.iter().any(|fd| fd.prop == self.want)
     }
     fn note(&mut self, k: &str) {
         self.ctx_counts.push(k.to_string());
@@ -382,8 +395,10 @@ impl<'r> Run<'r> {
             Some(Err(r)) => self.findings.push(f(Prop::C10, format!("failed-op|bytes-rejected|{}", r.clause.as_str()), format!("after failed {}", what))),
             Some(Ok(d)) => {
                 if let Some(diff) = d.msg.diff(before, self.nocase, false) {
-                    let cls = what.split(|c| c == '(' || c == ' ').next().unwrap_or("");
+                    let cls = what.trim_start().split(|c| c == '(' || c == ' ').next().unwrap_or("").to_string();
                     self.findings.push(f(Prop::C10, format!("failed-op|message-changed|{}", cls), format!("{} returned an error but the message changed: {}", what, diff)));
+                    // an operation that reports failure has no stated effect at all
+                    self.findings.push(f(Prop::C09, format!("effect|{}|failed-call-changed-message", cls), format!("{} returned an error but the message changed: {}", what, diff)));
                 }
                 if let Err(fd) = check_view(pp) {
                     self.findings.push(Finding { prop: Prop::C10, class: format!("failed-op|{}", fd.class), detail: format!("after failed {}: {}", what, fd.detail) });
@@ -503,7 +518,7 @@ pub fn run_history(rng: &mut Rng, mix: Mix) -> Outcome {
         l.clear();
         l.push(format!("start {} bytes {}", start_desc, hex(&start_bytes[..start_bytes.len().min(700)])));
     });
-    let mut run = Run { rng, model: model0, nocase: false, log: vec![format!("start {}", start_desc)], findings: vec![], ctx_counts: vec![], sigs: vec![], steps: 0, failed_ops: 0 };
+    let mut run = Run { want: mix.want, rng, model: model0, nocase: false, log: vec![format!("start {}", start_desc)], findings: vec![], ctx_counts: vec![], sigs: vec![], steps: 0, failed_ops: 0 };
     if run.monitor(&pp, "start").is_none() {
         let Run { log, findings, .. } = run;
         return Outcome { steps: 0, findings, log, start: start_bytes };
@@ -511,7 +526,8 @@ pub fn run_history(rng: &mut Rng, mix: Mix) -> Outcome {
     let nsteps = run.rng.range(1, mix.max_steps);
     let mut prev_sig = String::from("start");
     for step in 0..nsteps {
-        if !run.findings.is_empty() {
+        // a finding of ANOTHER property does not end the history: its consequences may be what this run is after
+        if run.halt() {
             break;
         }
         run.steps += 1;
@@ -719,13 +735,13 @@ pub fn run_history(rng: &mut Rng, mix: Mix) -> Outcome {
             sig = format!("session|{:?}|c{}|opt{}", kind, compressed as u8, run.model.opt().is_some() as u8);
             run.logp(format!("open {:?}", kind));
             session(&mut run, &mut pp, kind, err_step, strict);
-            if run.findings.is_empty() {
+            if !run.halt() {
                 run.monitor(&pp, "session end");
             }
         }
         // the question getters, through &mut; and a complete read-back through the iterators (EDNS options
         // included): what the API hands out must be what the bytes hold
-        if run.findings.is_empty() {
+        if !run.halt() {
             if let Ok(d) = check_view(&pp) {
                 if let Err(fd) = check_question_getters(&mut pp, &d, step) {
                     run.findings.push(fd);
@@ -734,7 +750,7 @@ pub fn run_history(rng: &mut Rng, mix: Mix) -> Outcome {
         }
         let do_read_back = match mix.want {
             Prop::C09 => run.findings.iter().all(|fd| fd.prop != Prop::C09),
-            Prop::C08 => run.findings.is_empty() && run.rng.chance(1, 3),
+            Prop::C08 => !run.halt() && run.rng.chance(1, 3),
             Prop::C10 => false,
         };
         if do_read_back && pp.packet.is_some() && strict_state(pp.packet()) {
@@ -751,7 +767,7 @@ pub fn run_history(rng: &mut Rng, mix: Mix) -> Outcome {
         prev_sig = sig;
     }
     // the object must still be usable: a complete read-only walk (states the parser can represent)
-    if run.findings.is_empty() && strict_state(pp.packet()) {
+    if !run.halt() && pp.packet.is_some() && strict_state(pp.packet()) {
         let b = pp.packet().to_vec();
         if let Ok(d) = refparse(&b, STRICT) {
             if let Err(e) = super::c03::read_back(&mut pp, &d, &b) {
@@ -786,15 +802,20 @@ fn session(run: &mut Run, pp: &mut ParsedPacket, kind: IterKind, err_step: bool,
     }
     let nops = run.rng.range(1, 5);
     for _ in 0..nops {
-        if !run.findings.is_empty() {
+        if run.halt() {
             return;
         }
         let before = run.model.clone();
         let d = match check_view(cur.pp()) {
             Ok(d) => d,
             Err(fd) => {
+                // the view is inconsistent: fall back on the bytes alone to locate the cursor (C09 / C10 runs go on)
+                let relaxed = cur.pp().packet.as_ref().and_then(|b| refparse(b, RELAXED).ok());
                 run.findings.push(fd);
-                return;
+                match relaxed {
+                    Some(d) if run.want != Prop::C08 => d,
+                    _ => return,
+                }
             }
         };
         let pos = match locate(&d, cur.offset()) {
